@@ -32,11 +32,18 @@ def algos(model):
 def is_credit(ev, reward_name):
     if ev[0] in ("node", "learner", "each", "each-varying", "while-credit"):
         if ev[0] in ("each", "each-varying"):
+            if isinstance(ev[2], str):
+                # a nested loop summarised as text: conservative - it credits if it mentions a credit event at all
+                return any(k in ev[2] for k in ("'node'", "'learner'", "'mean'"))
             inner = ev[2] if ev[0] == "each" else [x for s in ev[2] for x in s]
-            return any(is_credit(x if len(x) > 3 else (x[0], x[1], x[2], None), reward_name) for x in inner)
+            return any(is_credit(x if len(x) > 3 else (x[0], x[1], x[2], None), reward_name) for x in inner
+                       if isinstance(x, (tuple, list)) and len(x) >= 3)
         return True
     if ev[0] == "mean":
         v = ev[2]
+        if isinstance(v, str):
+            import re
+            return re.search(r"\b%s\b" % re.escape(reward_name), v) is not None
         return isinstance(v, ast.AST) and any(isinstance(n, ast.Name) and n.id == reward_name for n in ast.walk(v))
     return False
 
